@@ -73,6 +73,9 @@ KERNELS = {
     "ordered_inner_map_result_size": {"owner": "C19"},
     "ordered_inner_map_left_unique": {"owner": "C19", "mutated": [2, 3]},      # returns None
     "ordered_inner_map": {"owner": "C19", "mutated": [2, 3]},                  # returns None
+    # KT4C: the two `_old` kernels of the legacy streamed forms of Session.ordered_merge_left / _right
+    "generate_ordered_map_to_left_right_unique_partial_old": {"owner": "C19", "mutated": [3]},   # (i, j, unmapped), left_to_right
+    "ordered_map_valid_partial_old": {"owner": "C19", "mutated": [3]},                           # (i, val), result
 }
 C08_NOSRC = ("apply_spans_count", "apply_spans_index_of_first", "apply_spans_index_of_last")
 C08_REDUCE = ("apply_spans_count", "apply_spans_first", "apply_spans_last", "apply_spans_max", "apply_spans_min",
@@ -1103,6 +1106,80 @@ def random_c14(rng, n_cases):
 
 DERIVE = {"C14": derive_c14, "C08": derive_c08, "C09": derive_c09, "C04": derive_c04, "C16": derive_c16}
 RANDOM = {"C14": random_c14, "C06": random_c06, "C16": random_c16, "C08": random_c08, "C09": random_c09, "C04": random_c04, "C03": random_c03, "C17": random_c17, "C19": random_c19}
+
+
+# ----------------------------------------------------------------------------------------------------------------------
+# KT4C: the `_old` kernels of C19, called as the legacy drivers call them (views of the current chunks, a scratch array of
+# `chunksize` slots) and with malformed arguments (scratch array too short, empty map chunk, entries outside the data view)
+# ----------------------------------------------------------------------------------------------------------------------
+
+def lru_old_safe(left, right, cap):
+    """every subscript of generate_ordered_map_to_left_right_unique_partial_old is in range: it stores at every i it passes"""
+    i = j = 0
+    while i < len(left) and j < len(right):
+        if left[i] > right[j]:
+            j += 1
+        else:
+            if i >= cap:
+                return False
+            i += 1
+    return True
+
+
+def map_old_safe(d, nd, m, cap, inv):
+    """every subscript of ordered_map_valid_partial_old is in range (a negative one within -len..-1 wraps, still in range)"""
+    i = 0
+    while True:
+        if i >= len(m):
+            return False                     # `map_field[i]` of an empty chunk
+        v = m[i]
+        if v != inv:
+            if v >= d + nd:
+                return True
+            if not _inr(v - d, nd) or not _inr(i, cap):
+                return False
+        i += 1
+        if i >= len(m):
+            return True
+
+
+def random_c19_old(rng, n_cases):
+    out = []
+    I = lambda v: {"int": int(v)}                     # noqa: E731,E741
+    for t in range(n_cases):
+        inv = rng.choice([-1, 2147483647, 4611686018427387904])
+        if t % 2 == 0:
+            nl, nr = rng.randrange(0, 12), rng.randrange(0, 12)
+            left, right = _sorted_keys(rng, nl, False), _sorted_keys(rng, nr, True)
+            if rng.random() < 0.1:
+                right = [rng.randrange(0, 6) for _ in range(nr)]         # not sorted / not unique: subscripts still guarded
+            cap = nl + rng.randrange(0, 3) if rng.random() < 0.85 else rng.randrange(0, nl + 1)
+            out.append(gcase("generate_ordered_map_to_left_right_unique_partial_old",
+                             [I(rng.choice([0, 0, 4, 1000])), arr(left), arr(right), arr([7] * cap), I(inv)],
+                             unsafe=not lru_old_safe(left, right, cap), fuel=nl + nr + 1, _from="random"))
+            continue
+        d = rng.choice([0, 0, 3, 20])
+        nd = rng.choice([0, 1, 2, 5, rng.randrange(1, 12)])
+        n = rng.choice([0, 1, 2, 3, rng.randrange(1, 12)])
+        data = [rng.randrange(-50, 1000) for _ in range(nd)]
+        what = rng.randrange(10)
+        lo, hi = (d, d + nd + 2) if what < 8 else (d - 3, d + nd + 2)     # entries beyond the view end the call; below it: malformed
+        m = sorted(rng.randrange(lo, max(hi, lo + 1)) for _ in range(n))
+        m = [inv if rng.random() < 0.3 else k for k in m]
+        cap = n + rng.randrange(0, 3) if rng.random() < 0.85 else rng.randrange(0, n + 1)
+        out.append(gcase("ordered_map_valid_partial_old", [I(d), arr(data), arr(m), arr([0] * cap), I(inv)],
+                         unsafe=not map_old_safe(d, nd, m, cap, inv), fuel=n + 1, _from="random"))
+    return out
+
+
+def _random_c19_with_old(rng, n_cases):
+    """the share of the two `_old` kernels among the seeded direct calls of C19 (≥ 54 each per quick run)"""
+    nk = sum(1 for v in KERNELS.values() if v["owner"] == "C19")
+    n_old = 2 * n_cases // max(nk, 2)
+    return random_c19(rng, n_cases - n_old) + random_c19_old(rng, n_old)
+
+
+RANDOM["C19"] = _random_c19_with_old
 
 
 def extra_cases(owner, cases, tier, rng):
